@@ -140,6 +140,80 @@ def run(case: dict) -> Outcome:
     return out
 
 
+# ----------------------------------------------------------------------------- sync actors that outlast their timeout
+
+
+@st.composite
+def sync_timeout_case(draw):
+    """Sync actors run in threads; a thread cannot be cancelled.  When the execution timeout of a blocking sync actor expires, its
+    body is still running: the invocation is in progress until the body has ended, and the slot is not free before that."""
+    return {"tasks_limit": draw(st.sampled_from([2, 1])), "n": draw(st.integers(3, 5)), "block": draw(st.sampled_from([1.4, 1.8])),
+            "seed": draw(st.integers(0, 999))}
+
+
+async def _sync_timeout(loop, case, out: Outcome):
+    import asyncio
+    import threading
+    import time as _time
+    from datetime import timedelta
+
+    from harness.brokers import Env, reset_globals
+    from repid import BasicConverter, Job, Queue, Router, Worker
+
+    reset_globals()
+    env = Env("mem", loop, case["seed"])
+    conn = env.connection("c0", None, buckets=False)
+    await conn.connect()
+    lock = threading.Lock()
+    state = {"active": 0, "max": 0, "ran": 0}
+
+    def work(x: int = 0):
+        with lock:
+            state["active"] += 1
+            state["ran"] += 1
+            state["max"] = max(state["max"], state["active"])
+        try:
+            _time.sleep(case["block"])  # real seconds: longer than the 1 s execution timeout
+        finally:
+            with lock:
+                state["active"] -= 1
+        return x
+
+    router = Router()
+    router.actor(work, name="work", queue="qs", converter=BasicConverter)
+    await Queue("qs", _connection=conn).declare()
+    for i in range(case["n"]):
+        await Job("work", queue="qs", id_=f"s{i}", args={"x": i}, timeout=timedelta(seconds=1), _connection=conn).enqueue()
+    w = Worker(routers=[router], tasks_limit=case["tasks_limit"], messages_limit=case["n"], handle_signals=[], _connection=conn)
+    try:
+        await asyncio.wait_for(w.run(), timeout=120.0)
+    except asyncio.TimeoutError:
+        out.v("worker-stuck", f"worker did not finish {case['n']} messages")
+        return
+    # let stray threads end before judging / before the next case
+    for _ in range(100):
+        if state["active"] == 0:
+            break
+        await asyncio.sleep(0.05)
+    if state["max"] > case["tasks_limit"]:
+        out.v("limit-exceeded", f"{state['max']} sync actor bodies were running at once, tasks_limit={case['tasks_limit']} "
+              f"(each blocks {case['block']} s, execution timeout 1 s)", excess=state["max"] - case["tasks_limit"], sync=True)
+    if state["ran"] != case["n"]:
+        out.v("ran-twice" if state["ran"] > case["n"] else "stalled", f"{state['ran']} sync actor invocations for {case['n']} messages (retries=0)")
+    out.nontrivial = case["n"] > case["tasks_limit"]
+    out.cls(f"tasks_limit-{case['tasks_limit']}", "sync-timeout")
+
+
+def run_sync_timeout(case: dict) -> Outcome:
+    out = Outcome()
+    try:
+        vclock.run(lambda loop: _sync_timeout(loop, case, out), max_steps=3_000_000, thread_time=True)
+    except (vclock.StepLimit, vclock.Deadlock) as e:
+        out.inconclusive = True
+        out.info["watchdog"] = str(e)
+    return out
+
+
 def _s(brokers):
     return lambda: conc_case(brokers)
 
@@ -161,5 +235,6 @@ CHECK = Check(
         SubCheck("mem", _s(("mem",)), run, quick=40, thorough=1200),
         SubCheck("redis", _s(("redis",)), run, quick=40, thorough=1000),
         SubCheck("amqp", _s(("amqp",)), run, quick=40, thorough=1000),
+        SubCheck("sync-timeout", sync_timeout_case, run_sync_timeout, quick=2, thorough=12, shards=4),
     ],
 )
